@@ -49,6 +49,9 @@ def gen(rng, tier):
             # before anything deeper, the frame's locals are never crowded out (oracle only: the interpreted driver needs
             # minutes for such a case)
             yield cc.gen_huge(rng)
+        elif k % 61 == 0:
+            # __str__ raising a non-Exception BaseException + a string limit below any placeholder: what is delivered obeys it
+            yield cc.gen_base_exc(rng)
         elif k % 89 == 0:
             # time budgets outside the domain of the model (not an int of magnitude < 2^32): what the code does is recorded
             c = cc.gen_clock(rng)
@@ -195,6 +198,8 @@ def label(case, obs):
         return 'limits-outside/%s=%r/snap%d' % (list(rl)[0], list(rl.values())[0], len(obs.get('snapshots', [])))
     if case.get('clock'):
         return 'clock/%s/%s' % (case.get('frame_type', ''), cc.clock_label(case, obs))
+    if case.get('stream') == 'base-exc':
+        return 'base-exc/%s/snap%d' % ('watch' if case.get('globals') else 'local', len(obs.get('snapshots', [])))
     if case.get('stream') == 'huge':
         return 'huge/%s' % case.get('huge')
     if case.get('stream') == 'stale-capture':
